@@ -83,6 +83,7 @@ func runC11(cw *caseWriter, tier string, seed uint64) {
 		c11n.shutdown()
 		c11n = nil
 	}
+	runC15fail(cw, tier, seed)
 }
 
 // ---------------------------------------------------------------- snapshots taken in node sequences
